@@ -276,6 +276,29 @@ def lifecycle(rep, u, vals):
                                                  "" if ok else "the %s at line %s is not dominated by tp_task_stop: the deregistration then runs with an invalid "
                                                  "identifier and is refused; callbacks continue while another reference keeps the file open" % (what, ln_), ln_)
     rep.floor("descriptor close / invalidate sites behind a stop", nclose, 2)
+    # every transfer system call moves the caller's *window*: it starts at data + offset and is at most transfer_size long
+    IO_CALLS = {"read": (1, 2), "recv": (1, 2), "recvfrom": (1, 2), "write": (1, 2), "send": (1, 2), "pread": (1, 2), "pwrite": (1, 2)}
+    nio = 0
+    for fc in u.function_list:
+        if fc.relfile() != tp.TASK_C or not fc.has_cfg:
+            continue
+        per = 0
+        for pos, root, c, ps in fc.calls(set(IO_CALLS)):
+            bi, li = IO_CALLS[c["fn"]]
+            bk, lk = key(core.strip_casts(c["args"][bi])), key(core.strip_casts(c["args"][li]))
+            if "->data" not in bk:
+                continue            # not a transfer into/out of the task's io buffer
+            nio += 1
+            per += 1
+            rep.functions.add(fc.name)
+            obj = bk.split("->data")[0].lstrip("(")
+            ok = bk.replace(" ", "") == "(%s->data+%s->offset)" % (obj, obj) and lk == "%s->transfer_size" % obj
+            (rep.proved if ok else rep.violated)(
+                "R-SIB", fc, "io-window:%s#%d" % (c["fn"], per), "%s: %s() transfers inside the window [offset, offset + transfer_size) of the task's buffer" % (fc.name, c["fn"]),
+                ("buffer %s, length %s" % (bk[:40], lk[:40])) if ok else
+                "it is given the buffer %s and the length %s: a transfer longer than the window reaches bytes the caller did not offer and the reported "
+                "size exceeds what was asked for" % (bk[:50], lk[:50]), c.get("ln"))
+    rep.floor("transfer system calls on the task buffer", nio, 4)
     fx = tp.need(u, "tp_task_start_ex")
     rep.functions.add(fx.name)
     direct = [pos for pos, root, c, ps in fx.calls({"tp_task_handler"})]
